@@ -69,6 +69,7 @@ Pred(name) == name \in PredNames /\ Lazy("pred", LAMBDA L : R_Pred(K.v, L, name)
 UpsetUnion(E)   == Lazy("upset_union", LAMBDA L : R_UpsetUnion(L, E))
 DownsetUnion(E) == Lazy("downset_union", LAMBDA L : R_DownsetUnion(L, E))
 Upset(x)   == Lazy("upset", LAMBDA L : R_UpsetUnion(L, {x}))
+UpsetGeneralization(E) == Lazy("upset_generalization", LAMBDA L : R_UpsetGeneralization(L, E))
 Downset(x) == Lazy("downset", LAMBDA L : R_DownsetUnion(L, {x}))
 Attributes(x) == Lazy("attributes", LAMBDA L : R_Attributes(K.v, x))
 Minimal(x)    == Lazy("minimal", LAMBDA L : R_Minimal(K.v, x))
